@@ -57,7 +57,7 @@ def h_checksum(ctx, n, mode):
 
 
 def obligations(tier):
-  maxn = 12 if tier == 'quick' else 24
+  maxn = 8 if tier == "quick" else 24
   cases = []
   for n in range(0, maxn + 1):
     cases.append(dict(n=n, mode='plain'))
